@@ -7,7 +7,7 @@ allowed = set()
 for l in open(os.path.join(here, "allowed_externals.txt")):
     l = l.strip()
     if l and not l.startswith("#"):
-        allowed.add(l)
+        allowed.update(l.split())
 redef_new = set(l.split()[1] for f in ("redefine.syms", "redefine.T.syms") for l in open(os.path.join(here, f)) if l.strip())
 redef_old = set(l.split()[0] for l in open(os.path.join(here, "redefine.syms")) if l.strip())
 objs = sys.argv[1:]
